@@ -404,6 +404,10 @@ class Prop(common.PropertyCheck):
                     return '%s: impl %s vs model %s' % (a, impl['attrs'][a], model['meta'])
         if not model['aligned']:
             return 'model result is not aligned'
+        if 'set_changed' in impl:
+            want = sorted(map(list, {tuple(c) for c in mc}))
+            if impl['set_changed'] != want:
+                return 'assignment: model addresses cells %s, implementation wrote %s' % (want[:8], impl['set_changed'][:8])
         return None
 
     def nontrivial_key(self, case, impl):
